@@ -47,7 +47,13 @@ func (check) Plan(tier string, seed int64) []harness.Batch {
 	}
 	for p := 0; p < 16; p++ {
 		s, _ := json.Marshal(spec{N: n})
-		bs = append(bs, harness.Batch{Name: fmt.Sprintf("sessions-%d", p), Seed: seed*1000003 + int64(p), Spec: s, TimeoutS: 3000, CaseTimeoutS: 150})
+		b := harness.Batch{Name: fmt.Sprintf("sessions-%d", p), Seed: seed*1000003 + int64(p), Spec: s, TimeoutS: 3000, CaseTimeoutS: 150}
+		if p%4 == 3 {
+			// the renderer writes extended colours with semicolons
+			b.Name = fmt.Sprintf("sessions-legacy-sgr-%d", p)
+			b.Env = []string{"VAXIS_FORCE_LEGACY_SGR=1"}
+		}
+		bs = append(bs, b)
 	}
 	return bs
 }
@@ -334,6 +340,18 @@ func implemented() map[string]bool {
 	s = probe("\U0001F469\u200d\U0001F680x")
 	// unicode-aware width: the ZWJ sequence is one cell, x follows at column 2
 	res["unicode-width"] = len(s.Cells) > 0 && s.Cells[0][0].Grapheme == "\U0001F469\u200d\U0001F680" && s.Cells[0][2].Grapheme == "x"
+	// sixel: announced by attribute 4 of the emulator's device attributes
+	// (it answers no graphics query), implemented by its DCS q decoder
+	if m, err := term.VerifNew(10, 2); err == nil {
+		term.VerifFeed(m, []byte("\x1b[c"), nil)
+		rep := string(term.VerifTakeReplies(m))
+		term.VerifFree(m)
+		for _, a := range strings.Split(strings.TrimSuffix(strings.TrimPrefix(rep, "\x1b[?"), "c"), ";") {
+			if a == "4" {
+				res["sixel"] = true
+			}
+		}
+	}
 	return res
 }
 
@@ -347,8 +365,9 @@ func capClause(w *harness.W, vx *vaxis.Vaxis, sc sessCase) {
 	det := map[string]bool{
 		"rgb":           vx.CanRGB(),
 		"unicode-width": vx.CanUnicodeCore() || vx.CanExplicitWidth(),
+		"sixel":         vx.CanSixel(),
 	}
-	for _, f := range []string{"rgb", "unicode-width"} {
+	for _, f := range []string{"rgb", "unicode-width", "sixel"} {
 		if det[f] != impl[f] {
 			w.Violation("capability:"+f, fmt.Sprintf("feature %s: detected by Vaxis=%v, implemented by the emulator=%v", f, det[f], impl[f]), sc, fmt.Sprint(det[f]), fmt.Sprint(impl[f]))
 		}
